@@ -245,13 +245,19 @@ def c_case(case: dict, obs: dict) -> str:
     return f"(mkCase {STRAT[case['strategy']]} {prog} {cmds} {c_expect(obs)})"
 
 
+def model_covers(case: dict) -> bool:
+    """Sim/Model.v has one error strategy per simulator; a handler that calls set_error_strategy during a
+    run is driven on the implementation and judged by the oracle only."""
+    return not any(a[0] == "setstrat" for body in case["prog"] for a in body)
+
+
 def coq_compare(pid: str, cases: list[dict], obs: list[dict], shard: int = 250):
     """Returns (codes, error). codes[i] in {0 agree, 1 disagree, 2 not covered by the model, 3 not representable}."""
     d = C.scratch_dir(pid)
     codes = [0] * len(cases)
     idxs = []
     for i, o in enumerate(obs):
-        if representable(o) is None:
+        if representable(o) is None and model_covers(cases[i]):
             idxs.append(i)
         else:
             codes[i] = 3
